@@ -208,14 +208,24 @@ fn check_badfilter_pair(y: (&str, &str), z: (&str, &str), reqs: &[Req], l: &mut 
         return;
     }
     // a base blocking rule so that exceptions y are observable
-    let base = "/"; // matches every URL; not a member of the spelling alphabet
-    let list = [base, ytxt.as_str(), ztxt.as_str()];
+    let base = "://"; // matches every URL; not a member of the spelling alphabet
+    // the list under test: y once; when z cancels y, also y twice and y next to another spelling
+    // of the same rule (an alias of one of its options): z cancels every one of them
+    let mut variants: Vec<Vec<String>> = vec![vec![base.to_string(), ytxt.clone(), ztxt.clone()]];
+    if cancels {
+        variants.push(vec![base.to_string(), ytxt.clone(), ytxt.clone(), ztxt.clone()]);
+        if let Some(alias) = BF_OPTIONS.iter().find(|o| **o != y.1 && normalise(o) == normalise(y.1)) {
+            variants.push(vec![base.to_string(), ytxt.clone(), ztxt.clone(), spell(y.0, alias, false)]);
+        }
+    }
+    let mut y_mattered = false;
+    for (vi, list_owned) in variants.iter().enumerate() {
+    let list: Vec<&str> = list_owned.iter().map(|s| s.as_str()).collect();
     let e = build_engine(&list, &[], false, false);
     l.states += 1;
     let expected_rules = if cancels { ns::parse_rules(&[base], &[]) } else { ns::parse_rules(&[base, ytxt.as_str()], &[]) };
     let tags = HashSet::new();
     let act = ns::active_rules_by_text(&expected_rules, &tags);
-    let mut y_mattered = false;
     for rq in reqs {
         l.evaluations += 1;
         l.transitions += 1;
@@ -232,7 +242,7 @@ fn check_badfilter_pair(y: (&str, &str), z: (&str, &str), reqs: &[Req], l: &mut 
             y_mattered = true;
         }
         if let Some(field) = ns::diff_verdict(&s.verdict, &got) {
-            let sig = if cancels { format!("c04.badfilter.not-cancelled.{}", field) } else { format!("c04.badfilter.wrongly-cancelled-or-matching.{}", field) };
+            let sig = if cancels { format!("c04.badfilter.not-cancelled{}.{}", ["", ".second-copy", ".other-spelling"][vi], field) } else { format!("c04.badfilter.wrongly-cancelled-or-matching.{}", field) };
             l.mismatch(Mismatch {
                 sig,
                 what: format!("list {:?}: oracle says {:?} {} {:?}; request ({}, {}, {}) reference {:?} engine {:?}", list, ztxt, if cancels { "disables" } else { "does not disable" }, ytxt, rq.url, rq.source, rq.ty, s.verdict, got),
@@ -240,6 +250,7 @@ fn check_badfilter_pair(y: (&str, &str), z: (&str, &str), reqs: &[Req], l: &mut 
                 size: (ytxt.len() + ztxt.len() + rq.url.len()) as u64,
             });
         }
+    }
     }
     l.hist(if cancels { "pair-cancels" } else { "pair-independent" });
     if !cancels && y_mattered {
